@@ -282,6 +282,54 @@ def op_gd_variant(fs, d, r, keep_csum, which="itable_zero_g0"):
     return "group %d descriptor: %s (checksum re-computed)" % (g, which)
 
 
+EXTENT_CYCLE_VARIANTS = [("two", "ext4_1k"), ("fanout2", "ext4_1k"), ("two", "ext4_nocsum"), ("self_deep", "ext4_1k")]
+
+
+def op_extent_cycle(fs, d, r, keep_csum, which="two"):
+    """index blocks of an extent tree that lead to each other (A -> B -> A) under a root that claims a huge depth, block
+    checksums valid: a walk that trusts the claimed depth recurses once per level (two: stack exhaustion) or visits
+    2^depth nodes (fanout2)"""
+    cands = []
+    for i in regular_files(fs):
+        ino = fs.inode(i)
+        if not ino["flags"] & EXTENTS_FL or ino["flags"] & INLINE_DATA_FL:
+            continue
+        try:
+            exts, nodes = fs.extent_tree(i, ino)
+        except FormatError:
+            continue
+        if nodes and len(exts) >= 2:
+            cands.append((i, exts, nodes))
+    if not cands:
+        raise FormatError("no file with an extent block")
+    i, exts, nodes = cands[0]
+    gen = fs.inode(i)["generation"]
+    A = nodes[0][0]
+    B = exts[0][1]                       # a data block of the same file becomes the second index block
+    nmax = (fs.bs - 12) // 12
+
+    def node(target, fan):
+        b = bytearray(fs.bs)
+        struct.pack_into("<HHHHI", b, 0, 0xF30A, fan, nmax, 1, 0)
+        for k in range(fan):
+            struct.pack_into("<IIHH", b, 12 + 12 * k, k * 1000, target & 0xFFFFFFFF, (target >> 32) & 0xFFFF, 0)
+        if fs.has_csum:
+            c = crc32c(crc32c(crc32c(_seed(fs), struct.pack("<I", i)), struct.pack("<I", gen)), bytes(b[:12 + 12 * nmax]))
+            struct.pack_into("<I", b, 12 + 12 * nmax, c)
+        return b
+    fan = 2 if which == "fanout2" else 1
+    if which == "self_deep":
+        d[A * fs.bs:(A + 1) * fs.bs] = node(A, 1)
+    else:
+        d[A * fs.bs:(A + 1) * fs.bs] = node(B, fan)
+        d[B * fs.bs:(B + 1) * fs.bs] = node(A, fan)
+    a = fs.inode_loc(i) + 40
+    struct.pack_into("<HHHHI", d, a, 0xF30A, 1, 4, 60000 if which != "fanout2" else 40, 0)
+    struct.pack_into("<IIHH", d, a + 12, 0, A & 0xFFFFFFFF, (A >> 32) & 0xFFFF, 0)
+    fix_inode_csum(fs, d, i)
+    return "inode %d: extent index blocks %d and %d lead to each other (%s), the root claims depth %d" % (i, A, B, which, 60000 if which != "fanout2" else 40)
+
+
 def op_inode_field(fs, d, r, keep_csum):
     cands = regular_files(fs) + directories(fs)
     ino = r.choice(cands)
@@ -619,7 +667,7 @@ def op_superblock_geometry(fs, d, r, keep_csum, which=None):
     return "superblock: %s" % which
 
 
-DX_VARIANTS = ["root_count_big", "root_count_max", "root_limit_big", "root_levels", "root_info_length", "entry_block_big", "root_count_zero"]
+DX_VARIANTS = ["root_count_big", "root_count_max", "root_limit_big", "root_levels", "root_info_length", "entry_block_big", "root_count_zero", "levels_cycle"]
 
 
 def op_dx_node(fs, d, r, keep_csum, which=None):
@@ -646,6 +694,28 @@ def op_dx_node(fs, d, r, keep_csum, which=None):
     elif which == "root_limit_big":
         struct.pack_into("<H", d, cl, r.choice([0xFFFF, limit + 1, limit * 2]))
         struct.pack_into("<H", d, cl + 2, r.choice([count, limit + 1, 0xFFF0]))
+    elif which == "levels_cycle":
+        # a claimed depth of 12 over an interior node whose every entry leads back to itself (all checksums valid):
+        # a walk that branches at every level visits 60^12 nodes
+        leaf = struct.unpack_from("<I", d, cl + 4)[0] & 0x0FFFFFFF
+        if leaf in m:
+            d[a + 0x18 + 6] = 12
+            for k in range(count):
+                struct.pack_into("<I", d, cl + 8 * k + 4, leaf)
+            b = fs.off + m[leaf][0] * fs.bs
+            nlim = (fs.bs - 8 - (8 if fs.has_csum else 0)) // 8
+            node = bytearray(fs.bs)
+            struct.pack_into("<IHBB", node, 0, 0, fs.bs & 0xFFFF, 0, 0)
+            struct.pack_into("<HH", node, 8, nlim, 60)
+            for k in range(1, 60):
+                struct.pack_into("<II", node, 8 + 8 * k, k * 0x04000000, leaf)
+            struct.pack_into("<I", node, 12, leaf)
+            if fs.has_csum:
+                toff = 8 + 8 * nlim
+                c = crc32c(crc32c(crc32c(_seed(fs), struct.pack("<I", ino)), struct.pack("<I", inode["generation"])), bytes(node[:8 + 8 * 60]))
+                c = crc32c(c, bytes(node[toff:toff + 4]) + b"\0\0\0\0")
+                struct.pack_into("<I", node, toff + 4, c)
+            d[b:b + fs.bs] = node
     elif which == "root_levels":
         d[a + 0x18 + 6] = r.choice([1, 2, 3, 4, 255])
     elif which == "root_info_length":
